@@ -246,3 +246,161 @@ func R68() Rule {
 		}
 	}}
 }
+
+// ---------------------------------------------------------------------------
+// R76: a CheckAndMutateRow request with a predicate has that predicate evaluated
+// on every path that ends in success.
+//
+// C12: "An invalid predicate … makes the request fail without changing the row."
+// The only place an invalid filter is detected is its evaluation (filterRow).  A
+// shortcut that skips the evaluation for some rows — "the row is empty, so the
+// predicate cannot match" — acknowledges a request with `block_all_filter:false`,
+// a one-element chain or a bad regex, and applies false_mutations.  Structural
+// necessary condition: no path from the entry of CheckAndMutateRow to a success
+// return avoids both the evaluation of the request's predicate and the edge on
+// which the predicate is known to be absent; helpers are judged the same way.
+// ---------------------------------------------------------------------------
+
+func R76() Rule {
+	return Rule{Name: "R76", Run: func(c *core.Ctx) {
+		P := c.P
+		if P.SPkgs[core.PkgBttest] == nil {
+			return
+		}
+		root := P.MustFunc(core.PkgBttest, rpcCAM)
+		c.Fn(rpcCAM)
+		eval := P.MustFunc(core.PkgBttest, "filterRow")
+		isPredicate := func(v ssa.Value) bool {
+			ld, ok := v.(*ssa.UnOp)
+			if !ok || ld.Op != token.MUL {
+				return false
+			}
+			fa, ok := ld.X.(*ssa.FieldAddr)
+			if !ok {
+				return false
+			}
+			owner := core.NamedOf(fa.X.Type())
+			_, fname, _ := core.FieldName(fa)
+			return owner != nil && owner.Obj().Name() == "CheckAndMutateRowRequest" && fname == "PredicateFilter"
+		}
+		fromPredicate := func(v ssa.Value) bool { return flowsFrom(P, v, isPredicate, map[ssa.Value]bool{}, 0) }
+		reachesEval := map[*ssa.Function]bool{}
+		for _, f := range P.Scope(root, func(f *ssa.Function) bool { return core.PkgPathOf(f) != core.PkgBttest || f == eval }) {
+			for _, ci := range core.AllCalls(f) {
+				if ci.Static == eval {
+					reachesEval[f] = true
+				}
+			}
+		}
+		// propagate "contains an evaluation" to callers within the scope
+		for changed := true; changed; {
+			changed = false
+			for f := range reachesEval {
+				for _, r := range P.Refs(f) {
+					g := r.Instr.Parent()
+					if r.Kind == core.RefCall && !reachesEval[g] && core.PkgPathOf(g) == core.PkgBttest {
+						reachesEval[g] = true
+						changed = true
+					}
+				}
+			}
+		}
+		memo := map[*ssa.Function]bool{}
+		visiting := map[*ssa.Function]bool{}
+		var badRet *ssa.Return
+		var allPaths func(fn *ssa.Function, top bool) bool
+		allPaths = func(fn *ssa.Function, top bool) bool {
+			if v, ok := memo[fn]; ok && !top {
+				return v
+			}
+			if visiting[fn] {
+				return false
+			}
+			visiting[fn] = true
+			defer delete(visiting, fn)
+			through := map[*ssa.BasicBlock]bool{}
+			for _, ci := range core.AllCalls(fn) {
+				if _, isCall := ci.Instr.(*ssa.Call); !isCall {
+					continue
+				}
+				if ci.Static == eval {
+					args := ci.Common.Args
+					if len(args) > 0 && fromPredicate(args[0]) {
+						through[ci.Instr.Block()] = true
+					}
+					continue
+				}
+				if ci.Static != nil && ci.Static != fn && ci.Static.Blocks != nil && reachesEval[ci.Static] && core.PkgPathOf(ci.Static) == core.PkgBttest && allPaths(ci.Static, false) {
+					through[ci.Instr.Block()] = true
+				}
+			}
+			ok := true
+			seen := map[*ssa.BasicBlock]bool{}
+			stack := []*ssa.BasicBlock{fn.Blocks[0]}
+			for len(stack) > 0 && ok {
+				b := stack[len(stack)-1]
+				stack = stack[:len(stack)-1]
+				if seen[b] || through[b] {
+					continue
+				}
+				seen[b] = true
+				if len(b.Instrs) == 0 {
+					continue
+				}
+				switch last := b.Instrs[len(b.Instrs)-1].(type) {
+				case *ssa.Return:
+					// (results of a function with defers are spilled to locals: read them through their stores)
+					isErr, _ := isErrorReturn(last)
+					success := !isErr
+					if success {
+						ok = false
+						if top {
+							badRet = last
+						}
+					}
+				case *ssa.If:
+					nilEdge := -1
+					if bin, isBin := last.Cond.(*ssa.BinOp); isBin && (bin.Op == token.EQL || bin.Op == token.NEQ) {
+						var v ssa.Value
+						if core.IsNilConst(bin.Y) {
+							v = bin.X
+						} else if core.IsNilConst(bin.X) {
+							v = bin.Y
+						}
+						if v != nil && fromPredicate(v) {
+							nilEdge = 0
+							if bin.Op == token.NEQ {
+								nilEdge = 1
+							}
+						}
+					}
+					for i, s := range b.Succs {
+						if i != nilEdge {
+							stack = append(stack, s)
+						}
+					}
+				default:
+					stack = append(stack, b.Succs...)
+				}
+			}
+			if !top {
+				memo[fn] = ok
+			}
+			return ok
+		}
+		construct := "(*server).CheckAndMutateRow/predicate-evaluated-on-every-successful-path"
+		if !reachesEval[root] {
+			c.Bad("R76", construct, root.Pos(), "CheckAndMutateRow never evaluates its predicate filter: an invalid predicate cannot be rejected")
+			return
+		}
+		if allPaths(root, true) {
+			c.Ok("R76", construct, root.Pos(), true, "every path to a success return evaluates the request's predicate or passes the edge on which no predicate was given")
+		} else {
+			pos := root.Pos()
+			if badRet != nil {
+				pos = badRet.Pos()
+			}
+			c.Bad("R76", construct, pos, "a path reaches this success return without evaluating the request's predicate filter although one was given (a shortcut for empty or absent rows, a cached verdict): a structurally invalid predicate — block_all_filter:false, a chain of one, a bad regex, a negative count — is acknowledged and the false branch applied, instead of the request failing without changing the row")
+		}
+	}}
+}
